@@ -8,7 +8,9 @@ mod scanner;
 
 use self::scanner::Scanner;
 
-pub type InterpSlot = (usize, usize);
+// The start and end of the slot within the decoded literal, in bytes, and the
+// source location of the first character of the slot's expression.
+pub type InterpSlot = (usize, usize, Location);
 
 #[derive(Clone, Debug, PartialEq)]
 pub enum Token {
@@ -191,6 +193,7 @@ impl<'input> Lexer<'input> {
         let mut first_hex_char = None;
 
         let mut cur_interpolation_start = 0;
+        let mut cur_interpolation_loc = (0, 0);
         let mut interpolation_slots = vec![];
         let mut interpolation_brace_count = 0;
 
@@ -206,6 +209,8 @@ impl<'input> Lexer<'input> {
                     } else if c == '$' {
                         if interpolate {
                             cur_interpolation_start = chars.len();
+                            // The expression starts after the `${`.
+                            cur_interpolation_loc = (cur_loc.0, cur_loc.1 + 2);
                             state = StrScanState::Interpolate;
                             chars.push('$');
                         } else {
@@ -278,7 +283,11 @@ impl<'input> Lexer<'input> {
 
                     if interpolation_brace_count == 0 {
                         // We shorten the slot to ignore the delimiters.
-                        let slot = (cur_interpolation_start, chars.len()+1);
+                        let slot = (
+                            cur_interpolation_start,
+                            chars.len()+1,
+                            cur_interpolation_loc,
+                        );
                         interpolation_slots.push(slot);
                         state = StrScanState::None;
                     }
